@@ -12,7 +12,7 @@ MODULE = "World_Trace.tla"
 CFG = "World_Trace.cfg"
 
 
-def smc_cfg(ids, kind, trk, MaxOps, MaxC, emit=True):
+def smc_cfg(ids, kind, trk, MaxOps, MaxC, emit=True, faults=False):
     return """SPECIFICATION MCSpec
 CONSTANTS
   Ids = {%s}
@@ -21,12 +21,13 @@ CONSTANTS
   MaxOps = %d
   MaxC = %d
   Emit = %s
+  Faults = %s
 CONSTRAINT Bound
 VIEW View
 INVARIANT NoViol
 INVARIANT StructInv
 CHECK_DEADLOCK FALSE
-""" % (", ".join(str(i) for i in ids), kind, trk, MaxOps, MaxC, "TRUE" if emit else "FALSE")
+""" % (", ".join(str(i) for i in ids), kind, trk, MaxOps, MaxC, "TRUE" if emit else "FALSE", "TRUE" if faults else "FALSE")
 
 
 HARNESS_KINDS = {"vec": ["vec"], "dense": ["dense"], "defvec": ["defvec"], "map": ["hash", "btree"], "null": ["null"]}
@@ -64,6 +65,11 @@ def conv(tlc_script, ids, i):
             ops.append({"o": "wop", "k": "joinmut", "s": 0, "v": ["join", "lend", "par"][rot % 3], "sel": 0xffff, "wsel": m})
         elif k == "setemit":
             ops.append({"o": "wop", "k": "setemit", "s": 0, "b": bool(o["b"])})
+        elif k == "clear_f":
+            ops.append({"o": "fault", "k": o["k"], "op": {"o": "wop", "k": "clear", "s": 0}})
+        elif k == "delete_f":
+            ops.append({"o": "fault", "k": 1, "op": {"o": "delete", "h": pos[o["i"]]}})
+        # "teardown": the harness drops the world at the end of every script
     return ops
 
 
@@ -74,6 +80,7 @@ SUITES = {
         "smc_plain": ("smc", dict(ids=[0, 1, 2], kinds=KINDS5, trks=["none"], MaxOps=5, MaxC=3)),
         "smc_tracked": ("smc", dict(ids=[0, 1, 2], kinds=["vec", "dense", "null"], trks=["flagged", "deref"], MaxOps=4, MaxC=3)),
         "smc_far": ("smc", dict(ids=[1, 63, 64], kinds=["vec", "dense", "defvec"], trks=["none"], MaxOps=4, MaxC=3)),
+        "smc_fault": ("smc", dict(ids=[0, 1, 2], kinds=KINDS5, trks=["none"], MaxOps=4, MaxC=3, faults=True)),
         "rand_store": ("rand", dict(n=120, n_ops=100, S=[1, 2], profile="store", sweep="full", far=1, kinds=G.KINDS)),
         "rand_tracked": ("rand", dict(n=120, n_ops=100, S=[1, 2], profile="store", sweep="full", far=1,
                                       kinds=[k for k in G.KINDS if k[:2] in ("f_", "d_")])),
@@ -85,6 +92,7 @@ SUITES = {
         "smc_plain": ("smc", dict(ids=[0, 1, 2], kinds=KINDS5, trks=["none"], MaxOps=7, MaxC=4)),
         "smc_tracked": ("smc", dict(ids=[0, 1, 2], kinds=KINDS5, trks=["flagged", "deref"], MaxOps=5, MaxC=3)),
         "smc_far": ("smc", dict(ids=[1, 63, 64], kinds=KINDS5, trks=["none", "flagged"], MaxOps=5, MaxC=3)),
+        "smc_fault": ("smc", dict(ids=[0, 1, 2], kinds=KINDS5, trks=["none", "flagged"], MaxOps=5, MaxC=3, faults=True)),
         "rand_store": ("rand", dict(n=1500, n_ops=150, S=[1, 2], profile="store", sweep="full", far=2, kinds=G.KINDS)),
         "rand_tracked": ("rand", dict(n=1000, n_ops=150, S=[1, 2], profile="store", sweep="full", far=1,
                                       kinds=[k for k in G.KINDS if k[:2] in ("f_", "d_")])),
@@ -102,7 +110,7 @@ PROP_SUITES = {
 }
 
 TID0 = {"smc_plain": 11000000, "smc_tracked": 12000000, "smc_far": 13000000, "rand_store": 14000000,
-        "rand_tracked": 15000000, "rand_world_tracked": 16000000, "kind_churn": 17000000}
+        "rand_tracked": 15000000, "rand_world_tracked": 16000000, "kind_churn": 17000000, "smc_fault": 18000000}
 
 
 def run_suite(name, tier, seed):
@@ -125,7 +133,7 @@ def run_suite(name, tier, seed):
         ntlc = 0
         for k in params["kinds"]:
             for t in params["trks"]:
-                st, tl = C.model_check("Store_MC.tla", smc_cfg(params["ids"], k, t, params["MaxOps"], params["MaxC"]),
+                st, tl = C.model_check("Store_MC.tla", smc_cfg(params["ids"], k, t, params["MaxOps"], params["MaxC"], faults=params.get("faults", False)),
                                        "store_%s_%s_%s_%s" % (name, k, t, tier), workers=8)
                 mc["states"] += st.get("states", 0)
                 mc["transitions"] += st.get("transitions", 0)
